@@ -256,10 +256,12 @@ var decodeFuncsCache = new(sync.Map)
 // The returned function takes a Decoder pointer, a tag (int), and a reflect.Value to decode into,
 // and returns an error if decoding fails.
 func decodeFuncFor(ty reflect.Type) func(d *Decoder, tag int, value reflect.Value) error {
+	verifCachePoint(1, 0, ty)
 	if f, ok := decodeFuncsCache.Load(ty); ok {
 		return f.(func(d *Decoder, tag int, value reflect.Value) error)
 	}
 	f := decodeFunc(ty)
+	verifCachePoint(1, 1, ty)
 	decodeFuncsCache.Store(ty, f)
 	return f
 }
